@@ -3,7 +3,8 @@
 //! (`Box<dyn TensorMut<i64, D>>`, which the crate itself implements TensorRef/TensorMut for) and
 //! re-boxes the result, so arbitrary-depth compositions run through the genuine generic code.
 //! Case language: see coq/theories/Run/RunC02.v.
-//!   (2 1 term probes writes)
+//!   (2 1 term probes writes)   dynamic interpreter
+//!   (2 2 term probes writes)   static (non-erased) composition, for the term skeletons of c02/fixed.rs
 mod build;
 mod fixed;
 
@@ -14,8 +15,15 @@ use easy_ml::tensors::indexing::TensorAccess;
 use easy_ml::tensors::views::{DataLayout, TensorMut, TensorRef, TensorView};
 
 pub fn run(args: &[Sx]) -> Sx {
-    match args.first().and_then(|x| x.i64()) {
-        Some(1) if args.len() == 4 => {
+    let op = args.first().and_then(|x| x.i64());
+    // op 1: dynamic interpreter (type-erased sources); op 2: the same term built with concrete types
+    let execute = match op {
+        Some(1) => execute as fn(&Sx, &[Vec<usize>], &[(Vec<usize>, i64)], usize) -> Sx,
+        Some(2) => fixed::execute,
+        _ => return bad_case(),
+    };
+    match op {
+        Some(1) | Some(2) if args.len() == 4 => {
             let Some(probes) = args[2]
                 .list()
                 .and_then(|p| p.iter().map(|x| x.usizes()).collect::<Option<Vec<_>>>())
@@ -43,7 +51,6 @@ pub fn run(args: &[Sx]) -> Sx {
             }
             r0
         }
-        Some(2) if args.len() >= 2 => fixed::run(&args[1..]),
         _ => bad_case(),
     }
 }
@@ -69,13 +76,13 @@ fn execute(term: &Sx, probes: &[Vec<usize>], writes: &[(Vec<usize>, i64)], form:
         return bad_case();
     }
     let observed = match view {
-        DynView::D0(v) => observe::<0>(v, probes, writes, form),
-        DynView::D1(v) => observe::<1>(v, probes, writes, form),
-        DynView::D2(v) => observe::<2>(v, probes, writes, form),
-        DynView::D3(v) => observe::<3>(v, probes, writes, form),
-        DynView::D4(v) => observe::<4>(v, probes, writes, form),
-        DynView::D5(v) => observe::<5>(v, probes, writes, form),
-        DynView::D6(v) => observe::<6>(v, probes, writes, form),
+        DynView::D0(v) => observe::<Dyn<0>, 0>(v, probes, writes, form),
+        DynView::D1(v) => observe::<Dyn<1>, 1>(v, probes, writes, form),
+        DynView::D2(v) => observe::<Dyn<2>, 2>(v, probes, writes, form),
+        DynView::D3(v) => observe::<Dyn<3>, 3>(v, probes, writes, form),
+        DynView::D4(v) => observe::<Dyn<4>, 4>(v, probes, writes, form),
+        DynView::D5(v) => observe::<Dyn<5>, 5>(v, probes, writes, form),
+        DynView::D6(v) => observe::<Dyn<6>, 6>(v, probes, writes, form),
     };
     // the view (and every &mut into the leaves) is gone now
     match observed {
@@ -101,8 +108,8 @@ fn value(v: Option<i64>) -> Sx {
 }
 
 /// Ok([shape, layout, probes, iter, memorder, flags]) or Err(inconsistent code)
-fn observe<const D: usize>(
-    mut view: Dyn<D>,
+fn observe<S: TensorMut<i64, D>, const D: usize>(
+    mut view: S,
     probes: &[Vec<usize>],
     writes: &[(Vec<usize>, i64)],
     form: usize,
@@ -154,7 +161,7 @@ fn observe<const D: usize>(
             return Err(inconsistent(214));
         }
         {
-            let mut borrowed: &mut Dyn<D> = &mut view;
+            let mut borrowed: &mut S = &mut view;
             if TensorMut::get_reference_mut(&mut borrowed, p).map(|x| x as *mut i64 as *const i64) != addr {
                 return Err(inconsistent(215));
             }
